@@ -349,7 +349,12 @@ where
                     }
                 }
             }
-            Err(e) => Err(PdfError::Shared { source: e.clone()}),
+            Err(_) => {
+                // the cached failure may stem from a load of this reference as a different type
+                // (the entry does not record which): decide for `T` itself, as for a type mismatch.
+                let p = self.resolve(key)?;
+                Ok(RcRef::new(key, T::from_primitive(p, self)?.into()))
+            }
         }
     }
     fn options(&self) -> &ParseOptions {
